@@ -200,3 +200,33 @@ func SortedMid(xs []float64) float64 {
 	sort.Float64s(ys)
 	return ys[len(ys)/2]
 }
+
+// continue in range and counting loops (with and without an early return in the same loop)
+func SumSkip(xs []int) int {
+	s := 0
+	for _, x := range xs {
+		if x < 0 {
+			continue
+		}
+		if x == 7 {
+			s += 100
+			continue
+		}
+		s += x
+	}
+	return s
+}
+
+func FirstBig(xs []int, lim int) int {
+	seen := 0
+	for i := 0; i < len(xs); i++ {
+		if xs[i]%2 == 0 {
+			continue
+		}
+		seen++
+		if xs[i] > lim {
+			return i*1000 + seen
+		}
+	}
+	return -seen
+}
